@@ -11,11 +11,23 @@ import subprocess
 import sys
 
 
-def call(modname, desc, tier, timeout=600, env=None):
+def call(modname, desc, tier, timeout=None, env=None):
     from .runner import VERIF
     from .result import R
 
-    p = subprocess.run([sys.executable, "-m", "vf.core.fresh", modname, repr(desc), tier], cwd=VERIF, env=dict(os.environ, **(env or {})), capture_output=True, timeout=timeout)
+    if timeout is None or tier == "thorough":
+        # a little less than the runner's own per-shard watchdog (15 min quick, 4 h thorough), so that a child that never ends is
+        # reported by the runner as a hang of this family and not as an error of the machinery
+        timeout = max(timeout or 0, 13800 if tier == "thorough" else 840)
+
+    try:
+        p = subprocess.run([sys.executable, "-m", "vf.core.fresh", modname, repr(desc), tier], cwd=VERIF, env=dict(os.environ, **(env or {})), capture_output=True, timeout=timeout)
+    except subprocess.TimeoutExpired:
+        r = R()
+        fam = desc[1][0] if desc and str(desc[0]).startswith("__") and len(desc) > 1 and isinstance(desc[1], tuple) else (desc[0] if desc else "?")
+        r.violation(f"hang:{fam}", {"hang": repr(desc), "interpreter": "fresh", "env": dict(env or {})},
+                    f"shard {desc!r} in an interpreter of its own did not finish within {timeout} s (unchanged tree: minutes at most): the code under test loops without yielding or never terminates")
+        return r
     if p.returncode != 0:
         r = R()
         r.notes.append("MACHINERY-ERROR fresh-process shard failed:\n" + p.stderr.decode("utf-8", "replace")[-3000:])
@@ -23,13 +35,13 @@ def call(modname, desc, tier, timeout=600, env=None):
     return pickle.loads(p.stdout)
 
 
-def optimized(modname, desc, tier, timeout=600):
+def optimized(modname, desc, tier, timeout=None):
     """Run mod.run_shard(desc, tier) in an interpreter started with PYTHONOPTIMIZE=1 (assert statements compiled away). What it
     finds is reported under 'python-O:<signature>' with witness["optimize"] = True, so that a replay uses the same setting."""
     return call(modname, ("__optimized__", tuple(desc)), tier, timeout=timeout, env={"PYTHONOPTIMIZE": "1"})
 
 
-def debug_logging(modname, desc, tier, timeout=600):
+def debug_logging(modname, desc, tier, timeout=None):
     """Run mod.run_shard(desc, tier) in an interpreter whose root logger is set to DEBUG with a handler that formats every record
     (an application started with logging.basicConfig(level=logging.DEBUG)): what the code under test does only "when somebody is
     listening" is done. Findings are reported under 'debug-logging:<signature>' with witness["debug_logging"] = True."""
